@@ -27,9 +27,9 @@ def search_plan(tier, disagreements):
     return [('imp', 1200 if tier == 'quick' else 8000, {})]
 
 
-def fmt(v):
+def fmt(v, rng):
     if v == int(v):
-        return str(int(v)) if random.random() < 0.5 else D.fnum(float(v))
+        return str(int(v)) if rng.random() < 0.5 else D.fnum(float(v))
     return D.fnum(v)
 
 
@@ -56,12 +56,12 @@ def compress(vals, rng):
             while k + 1 < n and abs((vals[k + 1] - vals[k]) - s) < 1e-12 and s != 0:
                 k += 1
             if k - i >= 2 and s != 0:
-                toks.append(fmt(v))
+                toks.append(fmt(v, rng))
                 toks.append('%di' % (k - i - 1) if (k - i - 1) > 1 or rng.random() < .5 else 'I')
-                toks.append(fmt(vals[k]))
+                toks.append(fmt(vals[k], rng))
                 i = k + 1
                 continue
-        toks.append(fmt(v))
+        toks.append(fmt(v, rng))
         if run >= 1 and rng.random() < 0.8:
             r = run if rng.random() < 0.7 else rng.randint(1, run)
             toks.append(('%dr' % r) if (r > 1 or rng.random() < .5) else 'R')
@@ -112,9 +112,9 @@ def run_case(stream, seed, ctx, params):
     for c in d.cells:
         if c.id in on_card:
             if len(parts) > 1 and len(set(table[c.id].values())) == 1 and rng.random() < 0.4:
-                c.hints['imp_text'] = 'imp:%s=%s' % (','.join(parts), fmt(table[c.id][parts[0]]))
+                c.hints['imp_text'] = 'imp:%s=%s' % (','.join(parts), fmt(table[c.id][parts[0]], rng))
             else:
-                c.hints['imp_text'] = ' '.join('imp:%s=%s' % (p, fmt(table[c.id][p])) for p in parts)
+                c.hints['imp_text'] = ' '.join('imp:%s=%s' % (p, fmt(table[c.id][p], rng)) for p in parts)
     text = render_with_imp(d, rng)
     res = impl.convert(text, [])
     key = h(text)
